@@ -97,6 +97,12 @@ CHECKS = {
    text="Lattice cases (knots, end points, tail junctions - where discriminants vanish) run in float32 and float64 in both directions: no exception, finite, input dtype preserved, float32 within single-precision accuracy (scaled by the exact slope) of float64 and of the exact rational value. Every zoo transform / distribution / flow is evaluated as a float32 model and a float64 twin with the same state dict on generic, x4-scaled, offset and +-15 grid inputs (evaluation mode, both directions) and on offset narrow batches in training mode for batch-statistics layers.",
    design_ref="DESIGN.md section 4, C19",
    note="Off-lattice floating-point cancellation is sampled, not searched; UMNN skipped (float32 internals); ill-conditioned compositions (sigmoid -> CDF -> logit) only at generic points. " + TRUSTED),
+
+ "C12": dict(
+   technique="TLA+ specification of batch compositions and of the image reshape / permute pipelines as tensor provenance views (spec/BatchIndep.tla over Tensor.tla) model-checked by TLC; every composition evaluated on every zoo model (freshly built per evaluation) against single-row evaluation",
+   text="TLC proves RowLocal for the 1x1-convolution and piecewise-coupling image pipelines for all B,C,H,W up to the bound and enumerates every batch composition (every non-empty subset of a 4-row pool in every order, up to 3 rows, batch size one included). Each composition is evaluated on every zoo transform, distribution and flow in evaluation mode - on a model freshly built and loaded for every evaluation, initialised and pristine - and every row is compared with the same row evaluated alone (forward, inverse, log_prob, transform_to_noise; context rows follow their inputs; rows inside and outside the spline tail bounds are mixed).",
+   design_ref="DESIGN.md section 4, C12",
+   note="float64 1e-9 (BLAS may reorder); pool of 4 rows. " + TRUSTED),
 }
 REASONS = {}
 
